@@ -165,39 +165,59 @@ def canon_row(row):
 
 
 def episodes(case):
-    """the evaluations of a case in order: [(cfg, env)], all with case['learner']"""
+    """the evaluations of a case in order: [(cfg, env)]"""
     return [(case["cfg"], case["env"])] + [(t["cfg"], t["env"]) for t in case.get("then", [])]
+
+
+def episode_learner(case, k):
+    """learner spec of evaluation k: `then` entries may bring their own learner (a different learner object); otherwise the
+    case's learner object is used again"""
+    if k == 0:
+        return case["learner"]
+    return case["then"][k - 1].get("learner") or case["learner"]
 
 
 def episode_case(case, k):
     cfg, env = episodes(case)[k]
-    return {"cfg": cfg, "env": env, "learner": case["learner"]}
+    return {"cfg": cfg, "env": env, "learner": episode_learner(case, k)}
 
 
 def run_history(case):
     """run the real SequentialCB exactly as Experiment's ProcessTasks does, list(SafeEvaluator(val).evaluate(env, lrn)), once per
-    episode and always with the SAME learner object (the recording learner itself, or one SafeLearner wrapped around it when
-    learner['prewrap']).  Returns one observation per episode: exception, rows, the calls the learner saw during that episode and
-    the learner's script position when the episode started."""
+    episode.  Episodes without a learner of their own reuse the case's learner OBJECT (the recording learner itself, or one
+    SafeLearner wrapped around it when learner['prewrap']); with case['reuse_evaluator'] one SequentialCB OBJECT serves all
+    episodes (which then share the config), as an Experiment does.  Returns one observation per episode: exception, rows, the
+    calls the episode's learner saw during that episode and that learner's script position when the episode started."""
     from coba.context import CobaContext, NullLogger
     from coba.evaluators.sequential import SequentialCB
     from coba.safety import SafeEvaluator, SafeLearner
     from props.c06_learners import RecLearner
-    L = case["learner"]
-    script = [dict(e, free=mk(e.get("free")), kw={k: mk(v) for k, v in e.get("kw", {}).items()},
-                   ip={k: mk(v) for k, v in e.get("ip", [])}, il={k: mk(v) for k, v in e.get("il", [])}) for e in L["script"]]
-    lrn = RecLearner(script, L["fmt"], L["has_score"], L.get("batch_mode", "aware"), L.get("kw_keys", ()), info=bool(L.get("info")))
-    given = SafeLearner(lrn) if L.get("prewrap") else lrn
+
+    def build(L):
+        script = [dict(e, free=mk(e.get("free")), kw={k: mk(v) for k, v in e.get("kw", {}).items()},
+                       ip={k: mk(v) for k, v in e.get("ip", [])}, il={k: mk(v) for k, v in e.get("il", [])}) for e in L["script"]]
+        lrn = RecLearner(script, L["fmt"], L["has_score"], L.get("batch_mode", "aware"), L.get("kw_keys", ()), info=bool(L.get("info")))
+        return lrn, (SafeLearner(lrn) if L.get("prewrap") else lrn)
+
+    shared = build(case["learner"])
+    shared_ev = None
     outs = []
     old_logger = CobaContext.logger
     CobaContext.logger = NullLogger()
     try:
-        for cfg, envd in episodes(case):
+        for k, (cfg, envd) in enumerate(episodes(case)):
+            L = episode_learner(case, k)
+            lrn, given = shared if (k == 0 or not case["then"][k - 1].get("learner")) else build(L)
             CobaContext.learning_info.clear()
             n0 = len(lrn.calls)
             out = {"exc": None, "rows": None, "s0": [lrn.n_pred, lrn.n_score]}
             try:
-                ev = SequentialCB(record=list(cfg["record"]), learn=cfg["learn"], eval=cfg["eval"], seed=L.get("pmf_seed"))
+                if case.get("reuse_evaluator"):
+                    if shared_ev is None:
+                        shared_ev = SequentialCB(record=list(cfg["record"]), learn=cfg["learn"], eval=cfg["eval"], seed=L.get("pmf_seed"))
+                    ev = shared_ev
+                else:
+                    ev = SequentialCB(record=list(cfg["record"]), learn=cfg["learn"], eval=cfg["eval"], seed=L.get("pmf_seed"))
                 env = CaseEnv(envd["inters"], envd.get("batch"), envd.get("gen", False))
                 rows = list(SafeEvaluator(ev).evaluate(env, given))
                 out["rows"] = [canon_row(r) for r in rows]
@@ -837,8 +857,9 @@ PMFS = {1: [[(1, 1)]],
         5: [[(1, 2), (1, 8), (1, 8), (1, 8), (1, 8)], [(0, 1), (0, 1), (1, 1), (0, 1), (0, 1)], [(1, 4), (1, 4), (1, 4), (1, 8), (1, 8)]]}
 
 
-def gen_episode(rng, boundary=False):
-    """one (cfg, env) pair + the action style that restricts the learner's prediction format"""
+def gen_episode(rng, boundary=False, cfg_fixed=None):
+    """one (cfg, env) pair + the action style that restricts the learner's prediction format; with `cfg_fixed` only the
+    environment is drawn (for that configuration)"""
     learn = rng.choice(["on", "on", "off", "ips", None])
     ev = rng.choice(["on", "on", "ips", "ips", None])
     r = rng.below(10)
@@ -851,6 +872,8 @@ def gen_episode(rng, boundary=False):
     else:
         record = rng.shuffle(rng.subset(RECORD_ALL, 0.45))
     cfg = {"learn": learn, "eval": ev, "record": record}
+    if cfg_fixed is not None:
+        cfg, learn, ev = cfg_fixed, cfg_fixed["learn"], cfg_fixed["eval"]
 
     astyle = rng.choice(["int", "int", "bigint", "float", "str", "dense", "denselist", "sparse", "cont"])
     cstyle = rng.choice(["none", "scalar", "str", "dense", "dense", "sparse", "sparse"])
@@ -927,25 +950,25 @@ def gen_episode(rng, boundary=False):
     return cfg, env, (astyle if has_actions else "int")
 
 
-def gen_case(rng, tier="quick", boundary=False):
-    """a case = one evaluation, or (25%) a short history of 2-3 evaluations of the SAME learner object -- plain or already
-    wrapped in a SafeLearner -- over environments that differ in batching / context kind / action set (`then`)"""
-    cfg, env, style = gen_episode(rng, boundary)
-    then, styles = [], [style]
-    if rng.chance(0.25):
-        for _ in range(rng.choice([1, 1, 2])):
-            c2, e2, s2 = gen_episode(rng, True)
-            if rng.chance(0.5):                       # same interactions and mode, other batching: the cleanest contrast
-                e2 = dict(env, batch=(rng.choice([1, 2, 2, 3]) if not env.get("batch") else None))
-                c2, s2 = cfg, style
-            then.append({"cfg": c2, "env": e2})
-            styles.append(s2)
-    evs = [cfg["eval"]] + [t["cfg"]["eval"] for t in then]
-    has_score = rng.chance(0.6 if "ips" in evs else 0.2)
+def env_style(env):
+    """the action style of an environment as far as it restricts the prediction formats SafeLearner parses unambiguously"""
+    if not env["inters"] or "actions" not in idict(env["inters"][0]):
+        return "int"
+    acts = idict(env["inters"][0])["actions"]["l"]
+    if not acts:
+        return "cont"
+    return "sparse" if isinstance(acts[0], dict) and "d" in acts[0] else "other"
+
+
+def gen_learner(rng, cfgs, envs, allow_pmf=True, has_score=None):
+    """a scripted recording learner whose prediction format is legal for every environment it will meet"""
+    styles = [env_style(e_) for e_ in envs]
+    evs = [c_["eval"] for c_ in cfgs]
+    if has_score is None:
+        has_score = rng.chance(0.6 if "ips" in evs else 0.2)
     fmts = [f for f in FMTS_ALL if all(f in fmts_for(st) for st in styles)]
     fmt = rng.choice(fmts)
-    envs = [env] + [t["env"] for t in then]
-    pmf_ok = all(all("actions" in idict(p_) and idict(p_)["actions"]["l"] for p_ in e_["inters"]) for e_ in envs)
+    pmf_ok = allow_pmf and all(all("actions" in idict(p_) and idict(p_)["actions"]["l"] for p_ in e_["inters"]) for e_ in envs)
     if pmf_ok and rng.chance(0.12):
         fmt = rng.choice(["pmf", "pmfK"])      # the learner answers with {'pmf': [...]}: SafeLearner draws the action with CobaRandom(seed)
     kw_keys = rng.sample(["i", "tag", "z"], rng.choice([0, 1, 1, 2, 2])) if fmt.endswith("K") else []   # (a, {}) is legal
@@ -960,12 +983,48 @@ def gen_case(rng, tier="quick", boundary=False):
         L["pmf_seed"] = rng.choice([1, 2, 7, 42, 1000003])
         for e in script:
             e["pm"] = [[n_, [list(w) for w in rng.choice(PMFS[n_])]] for n_ in range(1, 6)]
-    if fmt not in ("pmf", "pmfK") and rng.chance(0.15) and not env.get("batch") and not any(t["env"].get("batch") for t in then):
+    if fmt not in ("pmf", "pmfK") and rng.chance(0.15) and not any(e_.get("batch") for e_ in envs):
         # the learner also writes CobaContext.learning_info: predict writes `ip`, learn then update()s with `il` (modelled un-batched)
         L["info"] = True
         for e in script:
             e["ip"] = [[k, gen_any(rng, 1)] for k in rng.sample(["info_p", "info_x", "info_n"], rng.randint(0, 2))]
             e["il"] = [[k, gen_any(rng, 1)] for k in rng.sample(["info_l", "info_x"], rng.randint(0, 2))]
+    return L
+
+
+def gen_case(rng, tier="quick", boundary=False):
+    """a case = one evaluation, or a short history of 2-3 evaluations: (25%) the SAME learner object -- plain or already wrapped in
+    a SafeLearner -- over environments that differ in batching / context kind / action set, each with a fresh evaluator; or (12%)
+    the SAME SequentialCB object applied to DIFFERENT learners (with/without score, other formats, batch-aware or not) over the
+    same or other environments (with/without 'actions', logged fields), as an Experiment does"""
+    cfg, env, style = gen_episode(rng, boundary)
+    r = rng.below(100)
+    if r < 12:
+        # one evaluator object, several learners
+        if rng.chance(0.3):
+            # what is required depends on the learner: score-based IPS needs no 'actions', a learner without `score` does
+            cfg = {"learn": rng.choice([None, "off"]), "eval": "ips", "record": rng.shuffle(rng.subset(["reward", "context", "time"], 0.6))}
+            _, env, _ = gen_episode(rng, True, cfg_fixed=cfg)
+            env = dict(env, inters=[[kv for kv in p_ if kv[0] not in ("actions", "rewards")] for p_ in env["inters"]])
+        then, hs0 = [], rng.chance(0.5)
+        L = gen_learner(rng, [cfg], [env], allow_pmf=False, has_score=hs0)
+        for q in range(rng.choice([1, 1, 2])):
+            if rng.chance(0.5):
+                e2 = dict(env, gen=rng.chance(0.5), batch=(env.get("batch") if rng.chance(0.7) else rng.choice([None, 2])))
+            else:
+                _, e2, _ = gen_episode(rng, True, cfg_fixed=cfg)
+            hs = (not hs0 if q == 0 else rng.chance(0.5)) if rng.chance(0.8) else hs0
+            then.append({"cfg": cfg, "env": e2, "learner": gen_learner(rng, [cfg], [e2], allow_pmf=False, has_score=hs)})
+        return {"cfg": cfg, "env": env, "learner": L, "then": then, "reuse_evaluator": True}
+    then = []
+    if r < 37:
+        for _ in range(rng.choice([1, 1, 2])):
+            c2, e2, s2 = gen_episode(rng, True)
+            if rng.chance(0.5):                       # same interactions and mode, other batching: the cleanest contrast
+                e2 = dict(env, batch=(rng.choice([1, 2, 2, 3]) if not env.get("batch") else None))
+                c2 = cfg
+            then.append({"cfg": c2, "env": e2})
+    L = gen_learner(rng, [cfg] + [t["cfg"] for t in then], [env] + [t["env"] for t in then])
     case = {"cfg": cfg, "env": env, "learner": L}
     if then:
         case["then"] = then
@@ -1031,6 +1090,15 @@ def corpus_cases():
                       "learner": dict(L(fmt=fmt, bm=bm, kw=("i",) if fmt.endswith("K") else ()), prewrap=prewrap),
                       "then": [{"cfg": {"learn": "on", "eval": "on", "record": dflt}, "env": {"batch": second_batch, "gen": False, "inters": sim}},
                                {"cfg": {"learn": "ips", "eval": "ips", "record": allrec}, "env": {"batch": first_batch, "gen": True, "inters": both}}]}
+                cs.append(c0)
+    # one SequentialCB object, several learners: what the evaluator needs depends on the learner (has_score), not on the evaluator
+    for learn in (None, "off"):
+        for order in ((True, False), (False, True), (True, False, True)):
+            for envq in (logna, log):
+                c0 = {"cfg": {"learn": learn, "eval": "ips", "record": ["reward"]}, "env": {"batch": None, "gen": True, "inters": envq},
+                      "learner": L(fmt="dAP", has_score=order[0]), "reuse_evaluator": True,
+                      "then": [{"cfg": {"learn": learn, "eval": "ips", "record": ["reward"]}, "env": {"batch": None, "gen": False, "inters": envq},
+                                "learner": L(fmt="A" if hs else "dAP", has_score=hs, bm="unaware" if hs else "aware")} for hs in order[1:]]}
                 cs.append(c0)
     # tiny logged propensities with the learner playing the logged action (idx 0 of a one-entry script; logged action = actions[0])
     for pr in ([1, 4096], [1, 10000], [1, 10 ** 9], [1, 2 ** 30]):
@@ -1120,15 +1188,19 @@ class C06(Property):
 
     def evaluate(self, case, driver):
         obs = run_history(case)
-        L = case["learner"]
         fails, tags, models, smalls = [], [], [], []
         n_eps = len(obs)
+        own_learners = any(t.get("learner") for t in case.get("then", []))
         if n_eps > 1:
-            tags += ["history:%d" % n_eps, "prewrap:%s" % bool(L.get("prewrap"))]
+            tags += ["history:%d" % n_eps, "prewrap:%s" % bool(case["learner"].get("prewrap"))]
+            if case.get("reuse_evaluator"):
+                tags.append("same-evaluator-object")
+            if own_learners:
+                tags.append("different-learners")
         valid_all, n_inters = True, 0
         for k, impl in enumerate(obs):
             ecase = episode_case(case, k)
-            cfg, env = ecase["cfg"], ecase["env"]
+            cfg, env, L = ecase["cfg"], ecase["env"], ecase["learner"]
             efails, etags = monitor(ecase, impl)
             etags += ["learn:%s" % cfg["learn"], "eval:%s" % cfg["eval"], "batch:%s" % (env.get("batch") or 0), "n:%d" % min(len(env["inters"]), 5),
                       "fmt:" + L["fmt"], "score:%s" % L["has_score"], "bm:" + L.get("batch_mode", "aware")]
@@ -1162,8 +1234,11 @@ class C06(Property):
                 etags.append("learning_info")
             if k > 0:
                 for f in efails:
-                    f["what"] = "evaluation #%d with the same learner object (%s), after %s: %s" % (
-                        k + 1, "a SafeLearner handed to evaluate" if L.get("prewrap") else "the plain learner",
+                    f["what"] = "evaluation #%d %s, after %s: %s" % (
+                        k + 1,
+                        ("with the same SequentialCB object%s" % (" and another learner (has_score=%s)" % L["has_score"] if case["then"][k - 1].get("learner") else ""))
+                        if case.get("reuse_evaluator") else
+                        ("with the same learner object (%s)" % ("a SafeLearner handed to evaluate" if L.get("prewrap") else "the plain learner")),
                         "; ".join("#%d batch=%s learn=%s eval=%s" % (q + 1, e_[1].get("batch"), e_[0]["learn"], e_[0]["eval"]) for q, e_ in enumerate(episodes(case)[:k])),
                         f["what"])
             fails += efails
@@ -1172,7 +1247,8 @@ class C06(Property):
             smalls.append({"exc": impl["exc"], "msg": impl.get("msg"), "rows": impl["rows"], "calls": [strip_call(c) for c in impl["calls"]]})
             valid_all = valid_all and bool(env["inters"]) and not any(t.startswith("reject:") for t in etags)
             n_inters += len(env["inters"])
-        if driver is not None and n_eps > 1 and all(m is not None for m in models) and L["fmt"] not in ("pmf", "pmfK"):
+        L = case["learner"]
+        if driver is not None and n_eps > 1 and not own_learners and all(m is not None for m in models) and L["fmt"] not in ("pmf", "pmfK"):
             # `runHistory` (theorem evaluations_independent): the k-th outcome of the whole history, evaluated by the model from the
             # initial learner state, must be the outcome replayed from the real learner's script position at the start of evaluation k
             # -- as long as the model's learner state after every earlier evaluation is the real one
@@ -1201,8 +1277,11 @@ class C06(Property):
             for k in range(len(then)):
                 kept = then[:k] + then[k + 1:]
                 yield dict(case, then=kept) if kept else dict(rest, learner={kk: v for kk, v in case["learner"].items() if kk != "prewrap"})
-            yield dict(case, cfg=then[0]["cfg"], env=then[0]["env"], then=then[1:]) if len(then) > 1 else \
-                dict(rest, cfg=then[0]["cfg"], env=then[0]["env"], learner={kk: v for kk, v in case["learner"].items() if kk != "prewrap"})
+            l0 = then[0].get("learner") or case["learner"]
+            yield dict(case, cfg=then[0]["cfg"], env=then[0]["env"], learner=l0, then=then[1:]) if len(then) > 1 else \
+                dict(rest, cfg=then[0]["cfg"], env=then[0]["env"], learner={kk: v for kk, v in l0.items() if kk != "prewrap"})
+            if case.get("reuse_evaluator"):
+                yield {kk: v for kk, v in case.items() if kk != "reuse_evaluator"}
             if case["learner"].get("prewrap"):
                 yield dict(case, learner=dict(case["learner"], prewrap=False))
             for k, t in enumerate(then):              # shrink the later environments
